@@ -2,12 +2,16 @@
    Property theorems only.  MODE / WHITE / BLACK are regenerated from every BitParser.add call of
    pdfminer/ccitt.py (Gen/CCITTTables.v); Spec/T6Tables.v holds the ITU-T T.4 / T.6 tables typed
    from the Recommendations; Model/CCITT.v mirrors BitParser and CCITTG4Parser.
-   FULL STATEMENT (C19_line / C19_page): decoding any admissible encoding of a row against its
-   reference row returns the row.  NOT PROVED: the mode layer (pass / vertical against the
-   reference line); it is covered by exhaustive small bitmaps and random large ones, against the
-   implementation and against this model.  PROVED: the layers below it. *)
+   PROVED: (a) the code layer: tables = Recommendations, prefix-freeness, trie walk, run lengths as sums of make-up
+   and terminating codes, bit packing; (b) the mode layer (C19_row, C19_page): for every bitmap of any width and
+   height and EVERY admissible choice of pass / vertical / horizontal elements (T.6 2.2: b1, b2 on the reference
+   row, a1, a2 on the coding row, stated declaratively and independently of the decoder's search loops), executing
+   the decoder's reaction to each element rebuilds exactly the rows, in order; every bitmap has such a coding.
+   NOT PROVED (correspondence and exhaustive small bitmaps only): the glue between (a) and (b), i.e. that the bit
+   string of an element drives parse_bit to exactly that element's reaction, and EncodedByteAlign skipping. *)
 From Coq Require Import ZArith List Bool.
-From PdfV Require Import Base.CV Gen.CCITTTables Spec.T6Tables Model.CCITT Model.CCITTRun Proofs.CCITTProofs.
+From PdfV Require Import Base.CV Gen.CCITTTables Spec.T6Tables Model.CCITT Model.CCITTRun Proofs.CCITTProofs
+  Proofs.CCITTModeProofs.
 Import ListNotations.
 Open Scope Z_scope.
 
@@ -47,6 +51,37 @@ Theorem C19_pack_byte : forall b7 b6 b5 b4 b3 b2 b1 b0 r,
    128 * v b7 + 64 * v b6 + 32 * v b5 + 16 * v b4 + 8 * v b3 + 4 * v b2 + 2 * v b1 + v b0) :: pack_bits r 0 0.
 Proof. exact pack_byte. Qed.
 
+(* the decoder's search loops find b1 and b2 as T.6 defines them (first changing element of the reference row to the
+   right of a0 with the opposite colour; the next changing element after it) *)
+Theorem C19_b1_b2 : forall ref c a0, 0 < wid ref -> -1 <= a0 < wid ref -> (c = 0 \/ c = 1) ->
+  let b1 := find_b1 (S (length ref)) ref c (a0 + 1) in
+  is_b1 ref a0 c b1 /\ is_b2 ref c b1 (find_b2 (S (length ref)) ref c b1).
+Proof. exact decoder_b1_b2. Qed.
+
+(* one row: any admissible sequence of pass / vertical / horizontal elements, decoded against the reference row,
+   rebuilds the row *)
+Theorem C19_row : forall ref row, length ref = length row -> 0 < wid row -> bin row ->
+  forall ops s, rowinv ref row s -> coding ref row (gcurpos s) (gcolor s) ops ->
+  let s' := fold_left apply_op ops s in
+  curline s' = row /\ gcurpos s' = wid row /\ refline s' = ref /\ gwidth s' = gwidth s /\ lines s' = lines s /\
+  galign s' = galign s.
+Proof. exact row_decodes. Qed.
+
+(* a page: each row coded against the one before it; from the decoder's initial state the collected lines are the rows *)
+Theorem C19_page : forall w align rows ops, 0 < w -> page_coding (white_line w) rows ops ->
+  rev (lines (fold_left apply_flush ops (g4_init w align))) = rows.
+Proof. exact page_from_init. Qed.
+
+Theorem C19_every_page_has_a_coding : forall rows ref,
+  Forall (fun r => length r = length ref /\ bin r) rows -> 0 < wid ref -> exists ops, page_coding ref rows ops.
+Proof. exact every_page_has_a_coding. Qed.
+
+Example C19_modes_nonvacuous :
+  let ref := [1; 1; 0; 0; 0; 1; 1; 1] in let row := [1; 0; 0; 0; 1; 1; 0; 1] in
+  let ops := [OVert (-1); OVert (-1); OHoriz 2 1; OVert 0] in
+  curline (fold_left apply_op ops (mkG4 8 false ref (white_line 8) (-1) 1 [] TMode AMode [] 0 0)) = row.
+Proof. exact coding_example. Qed.
+
 From Coq Require Import String.
 Open Scope string_scope.
 (* non-vacuity: a 2560+64+58-pixel white run needs two make-up codes; and a two-row bitmap through the decoder *)
@@ -68,3 +103,8 @@ Print Assumptions C19_walk.
 Print Assumptions C19_runlength.
 Print Assumptions C19_pack_byte.
 Print Assumptions C19_nonvacuous.
+Print Assumptions C19_b1_b2.
+Print Assumptions C19_row.
+Print Assumptions C19_page.
+Print Assumptions C19_every_page_has_a_coding.
+Print Assumptions C19_modes_nonvacuous.
